@@ -23,6 +23,9 @@ pub struct Flags {
     pub c10: bool,
     /// full audit after every op (otherwise the engine decides)
     pub audit_each: bool,
+    /// never dump the tables in the per-call monitors (scale sweeps): where a removed key lived is
+    /// inferred from the table lengths instead
+    pub cheap: bool,
 }
 
 #[derive(Clone, Debug)]
@@ -91,6 +94,7 @@ pub struct MapWorld<T: El> {
     /// key-adding call, clear or drain (C03's weaker clause)
     pub lazy_empty_ok: bool,
     pub ops_done: u32,
+    pub chain_info: chain::ChainInfo,
 }
 
 const VMOD: u32 = 3;
@@ -108,7 +112,7 @@ impl<T: El> MapWorld<T> {
         if m.capacity() < cap0 {
             vbail!("contract", "with_capacity({}) gives capacity {}", cap0, m.capacity());
         }
-        Ok(MapWorld { m, r: BTreeMap::new(), next_key: 0, cfg: cfg.clone(), st: None, leaky: false, deadline: None, lazy_empty_ok: false, ops_done: 0 })
+        Ok(MapWorld { m, r: BTreeMap::new(), next_key: 0, cfg: cfg.clone(), st: None, leaky: false, deadline: None, lazy_empty_ok: false, ops_done: 0, chain_info: Default::default() })
     }
 
     #[inline]
@@ -446,7 +450,9 @@ impl<T: El> MapWorld<T> {
                 let m = &mut self.m;
                 let res = window(|| chain::run_entry_chain::<T, T>(m, r, k, arg, raw));
                 self.st = Some(CallStats { s0, s1: self.m.verif_stats(), hashes: hasher::counts()[0] - c0, allocs: alloc::allocs() - a0, calls: 1 });
-                obs.u64(res?);
+                let info = res?;
+                self.chain_info = info;
+                obs.u64(info.obs);
                 if self.r.contains_key(&lk) {
                     self.note_key(k);
                 }
@@ -562,8 +568,10 @@ impl<T: El> MapWorld<T> {
             }
             OpK::FillToCap => {
                 let n = self.m.capacity() - self.m.len();
+                let len0 = self.r.len();
                 self.fill(n, "head-room")?;
-                if n > 0 && self.m.verif_stats().old.is_some() {
+                // (a zero-sized key type has a single value: there may be no unseen key to insert)
+                if self.r.len() > len0 && self.m.verif_stats().old.is_some() {
                     vbail!("contract", "after inserting capacity()-len() = {} new keys a resize is still pending", n);
                 }
                 obs.u64(n as u64);
@@ -867,7 +875,8 @@ impl<T: El> MapWorld<T> {
         if mode == MODE_CONSUME && y2 != before {
             vbail!("mismatch", "drain yielded {:?}, elements were {:?}", y2, before);
         }
-        if mode == MODE_FORGET_AT && (prefix as usize) < n0 {
+        if mode == MODE_FORGET_AT {
+            // hashbrown's drain parks the table in the iterator; forgetting it leaks the table
             self.leaky = true;
         }
         self.r.clear();
@@ -1015,7 +1024,7 @@ impl<T: El> MapWorld<T> {
         let present = self.r.contains_key(&lk);
         let s = self.m.verif_stats();
         let mut in_old = false;
-        if present && s.old.map_or(false, |o| o.0 > 0) && matches!(op.k, OpK::Insert | OpK::EntryChain | OpK::RawChain | OpK::Remove | OpK::RemoveEntry) {
+        if !self.cfg.flags.cheap && present && s.old.map_or(false, |o| o.0 > 0) && matches!(op.k, OpK::Insert | OpK::EntryChain | OpK::RawChain | OpK::Remove | OpK::RemoveEntry) {
             let d = self.dump();
             in_old = self.old_ids(&d).contains(&lk);
         }
@@ -1027,38 +1036,51 @@ impl<T: El> MapWorld<T> {
             Some(s) => s,
             None => return Ok(()),
         };
-        let lk = Self::lk(op.key);
         let (s0, s1) = (pre.s, st.s1);
-        let len1 = self.r.len();
-        let added = len1 > pre.len;
-        let now_present = self.r.contains_key(&lk);
-        // table lens, with a growth in between folded in: the previous main table is the old one
-        let grew = s0.old.is_none() && s1.main_buckets != s0.main_buckets && st.calls == 1;
-        let (l0, m0) = if grew { (s0.main_len, 0) } else { (s0.old.map_or(0, |o| o.0), s0.main_len) };
-        let l1 = s1.old.map_or(0, |o| o.0);
-        let m1 = s1.main_len;
         let single = matches!(op.k, OpK::Get | OpK::GetMut | OpK::GetKeyValue | OpK::GetKeyValueMut | OpK::ContainsKey | OpK::Index | OpK::RawGet | OpK::Insert | OpK::Remove | OpK::RemoveEntry | OpK::EntryChain | OpK::RawChain);
         let is_chain = matches!(op.k, OpK::EntryChain | OpK::RawChain);
-        // an element removed from the old table by this op itself
-        let removed_old = pre.in_old && (matches!(op.k, OpK::Remove | OpK::RemoveEntry) || (is_chain && Self::chain_removes(op)));
-        let rfo = removed_old as usize;
+        // what the op did to its key, from the reference's point of view
+        let (inserted, removed) = match op.k {
+            OpK::Insert => (!pre.present, false),
+            OpK::Remove | OpK::RemoveEntry => (false, pre.present),
+            OpK::EntryChain | OpK::RawChain => (self.chain_info.inserted, self.chain_info.removed),
+            _ => (false, false),
+        };
+        // a removal of a key that was present at the start precedes any insertion by the same op
+        let in_old = if self.cfg.flags.cheap && matches!(op.k, OpK::Remove | OpK::RemoveEntry) {
+            // inferred: the main table kept its length, the old one lost exactly one
+            removed && s1.main_len == s0.main_len && s0.old.map_or(0, |o| o.0) == s1.old.map_or(0, |o| o.0) + 1
+        } else {
+            pre.in_old
+        };
+        let pre = &PreInfo { present: pre.present, in_old, len: pre.len, s: pre.s };
+        let rfo = (removed && pre.present && pre.in_old) as usize;
+        let rfm_first = (removed && pre.present && !pre.in_old) as usize;
+        // a growth inside the call turns the previous main table into the old one
+        let grew = single && s0.old.is_none() && st.allocs >= 1;
+        let (l0, m0) = if grew { (s0.main_len - rfm_first, 0) } else { (s0.old.map_or(0, |o| o.0), s0.main_len) };
+        let l1 = s1.old.map_or(0, |o| o.0);
+        let m1 = s1.main_len;
         let moved = (l0 as isize - l1 as isize - rfo as isize).max(0) as usize;
-        // the op stored a key into the main table
-        let inserted_into_main = single && (added || (is_chain && pre.present && Self::chain_removes(op) && now_present && Self::chain_inserts(op)));
+        let inserted_into_main = single && inserted;
+        // chains may contain several inserting calls; the per-call bounds scale with their number
+        let ins = if is_chain { self.chain_info.inserts.max(1) as usize } else { 1 };
         if self.cfg.flags.c02 && single && st.calls == 1 {
-            let overwrite_old = op.k == OpK::Insert && pre.present && pre.in_old;
+            // (scale sweeps cannot afford to look where the key lives: an overwrite that carried is
+            // taken to have hit the old table; the exact rule is checked by E1/E2 at small sizes)
+            let overwrite_old = op.k == OpK::Insert && pre.present && (pre.in_old || (self.cfg.flags.cheap && l0 > l1));
             let arg_hashes = hasher::hash_log_count(if T::ZST { 0 } else { op.key });
             if inserted_into_main || overwrite_old {
-                if moved > R {
-                    vbail!("monitor", "{} moved {} elements out of the old table (R = {})", op, moved, R);
+                if moved > R * ins {
+                    vbail!("monitor", "{} moved {} elements out of the old table (R = {}, {} inserting call(s))", op, moved, R, ins);
                 }
-                if st.hashes as usize > R + 2 {
-                    vbail!("monitor", "{} computed {} hashes (bound R+2 = {})", op, st.hashes, R + 2);
+                if st.hashes as usize > (R + 1) * ins + 1 {
+                    vbail!("monitor", "{} computed {} hashes (bound R+2 = {} per inserting call)", op, st.hashes, R + 2);
                 }
-                if st.hashes as usize > moved + 2 || arg_hashes > 2 {
-                    vbail!("monitor", "{} computed {} hashes for {} moved elements ({} on the added key); each moved element may be re-hashed once and the added key hashed twice", op, st.hashes, moved, arg_hashes);
+                if st.hashes as usize > moved + 1 + ins || arg_hashes > 1 + ins {
+                    vbail!("monitor", "{} computed {} hashes for {} moved elements ({} on the added key, {} inserting call(s)); each moved element may be re-hashed once and the added key hashed twice", op, st.hashes, moved, arg_hashes, ins);
                 }
-                if st.allocs > 1 {
+                if st.allocs as usize > ins {
                     vbail!("monitor", "{} performed {} table allocations", op, st.allocs);
                 }
             } else {
@@ -1095,9 +1117,18 @@ impl<T: El> MapWorld<T> {
             let emptied_now = s0.old.map_or(false, |o| o.0 > 0) && s1.old.map_or(false, |o| o.0 == 0);
             if inserted_into_main {
                 // progress: min(R, remaining) moved
-                let rem = l0 - rfo.min(l0);
-                let want = rem - rem.min(R);
-                if l1 != want {
+                let mut want = l0 - rfo.min(l0);
+                let rem = want;
+                // every inserting call made while the map is split moves min(R, remaining); if the
+                // resize started inside this very op, the inserting calls before it moved nothing
+                let mut ok = false;
+                for i in 0..ins {
+                    want -= want.min(R);
+                    if (i + 1 == ins || grew) && l1 == want {
+                        ok = true;
+                    }
+                }
+                if !ok {
                     vbail!("monitor", "{} left {} elements in the old table; {} were there and min(R, remaining) must move", op, l1, rem);
                 }
                 if l1 == 0 && s1.old.is_some() {
@@ -1125,15 +1156,15 @@ impl<T: El> MapWorld<T> {
                             vbail!("monitor", "{} left an old table behind", op);
                         }
                     }
-                    OpK::Reserve | OpK::TryReserve if !stats_eq_tables(&s0, &s1) && s0.old.is_none() => {
-                        // reserve started a resize
-                        self.deadline = Some((l1 + R - 1) / R);
-                    }
                     _ => {}
                 }
                 if s1.old.map_or(false, |o| o.0 == 0) && !self.lazy_empty_ok {
                     vbail!("monitor", "{} emptied the old table but did not free it", op);
                 }
+            }
+            if !inserted_into_main && (st.allocs > 0 || !stats_eq_tables(&s0, &s1)) {
+                // a capacity call re-shaped the tables: a new resize may have started
+                self.deadline = s1.old.map(|o| (o.0 + R - 1) / R);
             }
             if s1.old.is_none() {
                 self.deadline = None;
